@@ -130,7 +130,7 @@ def cqltype_to_python(cql_string):
         (r'<', lambda s, t: ', ['),
         (r'>', lambda s, t: ']'),
         (r'[, ]', lambda s, t: t),
-        (r'".*?"', lambda s, t: "'{}'".format(t)),
+        (r'".*?"', lambda s, t: repr(t)),
     ))
 
     scanned_tokens = scanner.scan(cql_string)[0]
@@ -145,19 +145,14 @@ def python_to_cqltype(types):
         ['int'] -> int
         ['frozen', ['tuple', ['text', 'int']]] -> frozen<tuple<text, int>>
     """
-    scanner = re.Scanner((
-        (r"'[a-zA-Z0-9_]+'", lambda s, t: t[1:-1]),
-        (r'^\[', lambda s, t: None),
-        (r'\]$', lambda s, t: None),
-        (r',\s*\[', lambda s, t: '<'),
-        (r'\]', lambda s, t: '>'),
-        (r'[, ]', lambda s, t: t),
-        (r'\'".*?"\'', lambda s, t: t[1:-1]),
-    ))
-
-    scanned_tokens = scanner.scan(repr(types))[0]
-    cql = ''.join(scanned_tokens).replace('\\\\', '\\')
-    return cql
+    parts = []
+    for item in types:
+        if isinstance(item, list):
+            # the parameters of the type named just before
+            parts[-1] += '<' + python_to_cqltype(item) + '>'
+        else:
+            parts.append(item)
+    return ', '.join(parts)
 
 
 def _strip_frozen_from_python(types):
